@@ -231,7 +231,10 @@ Inductive xop :=
 | XPlug (p : string)       (* core_ports.load_one(...) : create + load() *)
 | XRestart                 (* every port removed with its persisted data kept, then core_ports.load(all of them): all created
                               first (no expressions), then loaded one after the other in the same order *)
-| XProbe (p : string).     (* observe a port's expression *)
+| XReset (p : string)      (* port.reset() (PUT /ports restore): forget the expression, load_from_data({}) *)
+| XProbe (p : string).     (* observe a port's expression; also enable() / disable(): enable() re-parses the port's own expression
+                              text and stores the copy at once (no suspension point in between, Gen/C04Gen.v), so neither
+                              changes what the port reads *)
 
 Definition persisted_ops (s : store) (p : string) : list op :=
   match lookup s p with Some (Some e) => [OSet p (TExpr e)] | _ => [] end.
@@ -240,6 +243,7 @@ Definition xexpand (g : graph) (s : store) (x : xop) : list op :=
   match x with
   | XSave _ | XProbe _ => []
   | XUnplug p => [ORemove p]
+  | XReset p => [OSet p TEmpty]
   | XPlug p => match lookup g p with Some _ => [] | None => OAdd p :: persisted_ops s p end
   | XRestart => map (fun k => OSet k TEmpty) (map fst g) ++ flat_map (persisted_ops s) (map fst g)
   end.
@@ -265,7 +269,7 @@ Definition store_after_op (g : graph) (s : store) (o : op) (out : outcome) : sto
 
 Definition xoutcome (g : graph) (x : xop) : outcome :=
   match x with
-  | XSave p | XUnplug p | XProbe p => match lookup g p with Some _ => Accepted | None => NoPort end
+  | XSave p | XUnplug p | XProbe p | XReset p => match lookup g p with Some _ => Accepted | None => NoPort end
   | XPlug p => match lookup g p with Some _ => NoPort | None => Accepted end
   | XRestart => Accepted
   end.
